@@ -2045,6 +2045,17 @@ impl Zeroconf {
                         intf.ip()
                     );
                     service_info.set_status(if_index, ServiceStatus::Announced);
+
+                    // Announce a second time one second later, as for every announcement.
+                    let next_time = current_time_millis() + 1000;
+                    self.retransmissions.push(ReRun {
+                        next_time,
+                        command: Command::RegisterResend(
+                            service_info.get_fullname().to_string(),
+                            if_index,
+                        ),
+                    });
+                    self.timers.push(Reverse(next_time));
                 } else {
                     for timer in dns_registry.new_timers.drain(..) {
                         self.timers.push(Reverse(timer));
